@@ -1,0 +1,51 @@
+//go:build verif
+
+// Package verifhook carries the observation points used by the runtime
+// monitors in /verif.  With the build tag "verif" off (the default) every
+// function is empty and inlined away.
+package verifhook
+
+import "sync/atomic"
+
+// Enabled reports whether the hooks are compiled in.
+const Enabled = true
+
+var (
+	oobReads int64
+	dmSteps  int64
+	dmLimit  int64
+
+	// DMTrace, when non-nil, receives every dispatch step of the Data Matrix
+	// high level encoder (single-goroutine use only).
+	DMTrace func(pos, mode, codewords int)
+)
+
+// DMStepLimitExceeded is the panic value used to abort a Data Matrix high
+// level encodation that exceeded the step limit set by SetDMStepLimit.
+type DMStepLimitExceeded struct{ Steps, Pos, Mode, Codewords int }
+
+// OOBRead is called by BitMatrix.Get when asked for a module outside the matrix.
+func OOBRead(x, y, w, h int) { atomic.AddInt64(&oobReads, 1) }
+
+// OOBReads returns the number of out-of-range reads seen so far.
+func OOBReads() int64 { return atomic.LoadInt64(&oobReads) }
+
+// SetDMStepLimit arms the step limit (0 = none) and resets the step counter.
+func SetDMStepLimit(n int) {
+	atomic.StoreInt64(&dmLimit, int64(n))
+	atomic.StoreInt64(&dmSteps, 0)
+}
+
+// DMSteps returns the number of dispatch steps since the last SetDMStepLimit.
+func DMSteps() int { return int(atomic.LoadInt64(&dmSteps)) }
+
+// DMStep is called after every mode-encoder dispatch in EncodeHighLevel.
+func DMStep(pos, mode, codewords int) {
+	n := atomic.AddInt64(&dmSteps, 1)
+	if f := DMTrace; f != nil {
+		f(pos, mode, codewords)
+	}
+	if l := atomic.LoadInt64(&dmLimit); l > 0 && n > l {
+		panic(DMStepLimitExceeded{int(n), pos, mode, codewords})
+	}
+}
